@@ -251,6 +251,14 @@ func (fr *Frame) frameObligations(clauses []*Clause, initSt, finalSt *State, pc 
 							locs = append(locs, locInfo{s.Val, "", true})
 						}
 						continue
+					case "closed":
+						v, err := entryEnv.eval(c.Args[0])
+						if err != nil {
+							vc.contractError(cl, err)
+							continue
+						}
+						locs = append(locs, locInfo{vc.E.classChanClosed(v.Typ), v.Ts[0], false})
+						continue
 					}
 				}
 			}
